@@ -247,6 +247,8 @@ fn file_bytes() -> BoxedStrategy<Vec<u8>> {
                 rest.extend(tail);
                 crate::refparse::render_canonical(&rest)
             }),
+        // arithmetic on values of several limbs (products, squares, reciprocals; factors incl. powers of two)
+        2 => super::c01::big_value_case().prop_map(|c| crate::refparse::render_canonical(&c.cmds)),
         1 => super::c04::any_char().prop_map(|c| c.to_string()),
         1 => prop::collection::vec(super::c04::any_char(), 0..40).prop_map(|v| v.into_iter().collect::<String>()),
     ];
